@@ -228,7 +228,13 @@ int main(int argc, char **argv) {
             if (!strcmp(how, "new") || !strcmp(how, "newnocb") || !dec) {
                 dec_destroy();
                 dec_cb = strcmp(how, "newnocb") != 0;
-                dec = aws_utf8_decoder_new(vh_alloc(), dec_cb ? &opt : NULL); /* NULL options = validate only */
+                /* options are a temporary of the caller's: an exact-size heap copy that is gone as soon as the constructor
+                 * has returned (a constructor that keeps the pointer reads released memory later) */
+                struct aws_utf8_decoder_options *tmp = malloc(sizeof(*tmp));
+                *tmp = opt;
+                dec = aws_utf8_decoder_new(vh_alloc(), dec_cb ? tmp : NULL); /* NULL options = validate only */
+                memset(tmp, 0xDD, sizeof(*tmp));
+                free(tmp);
                 how = "new";
             } else if (!strcmp(how, "reset") || dec_failed) {
                 aws_utf8_decoder_reset(dec);
